@@ -235,7 +235,45 @@ QUICK_DTYPES = {'numpy': ['bool', 'int32', 'float32', 'complex64'], 'jax': ['boo
                 'torch': ['bool', 'int8', 'int64', 'float32', 'float64']}
 
 
+SAME_SIZE_SHAPES = [((), (1,)), ((1,), (1, 1)), ((0,), (2, 0)), ((2, 0), (0, 3)), ((1, 2), (2,)), ((2,), (1, 1, 2)),
+                    ((2, 3), (3, 2)), ((3, 2), (6,)), ((6,), (2, 3))]
+
+
+def ravel_histories(ctx):
+    """Two tree_ravel calls in ONE process whose leaves have the same sizes and dtypes but different shapes (both orders),
+    and the first unravel function used again after the second call: an unravel function belongs to its own call."""
+    for bname in ('numpy', 'jax', 'torch'):
+        B = Backend(bname)
+        for dt in QUICK_DTYPES[bname][1:3]:
+            for sa, sb in SAME_SIZE_SHAPES:
+                for first, second in ((sa, sb), (sb, sa)):
+                    for dsl, k in (('L', 1), (['tuple', None, ['L', 'L']], 2), (['dict', {'keys': ['b', 'a']}, ['L', ['list', None, ['L']]]], 2)):
+                        specs1 = [(first, dt)] * k
+                        specs2 = [(second, dt)] * k
+                        check_case(ctx, B, dsl, specs1, False, '')
+                        check_case(ctx, B, dsl, specs2, False, '')
+                        # the FIRST call's unravel function, used after the second call
+                        U, R = e1.universe()
+                        a1 = [B.array(leaf_values(first, dt, i), dt) for i in range(k)]
+                        a2 = [B.array(leaf_values(second, dt, i), dt) for i in range(k)]
+                        t1 = a1[0] if k == 1 else (a1[0], a1[1])
+                        t2 = a2[0] if k == 1 else (a2[0], a2[1])
+                        v1, un1 = B.mod.tree_ravel(t1)
+                        v2, un2 = B.mod.tree_ravel(t2)
+                        ctx.count()
+                        for label, un_, v, arrs in (('first-after-second', un1, v1, a1), ('second', un2, v2, a2)):
+                            back = outcome_of(lambda un_=un_, v=v: optree.tree_leaves(un_(v)))
+                            if back[0] != 'ok' or len(back[1]) != k or any(
+                                    tuple(x.shape) != tuple(a.shape) or not np.array_equal(B.to_numpy(x), B.to_numpy(a))
+                                    for x, a in zip(back[1], arrs)):
+                                ctx.violation('ravel-history', f'{PROP}:{bname}:unravel-belongs-to-another-call',
+                                              {'backend': bname, 'history': [list(first), list(second)], 'dtype': dt, 'leaves': k,
+                                               'which': label}, repr(back)[:400])
+
+
 def run_shard(ctx):
+    if ctx.shard == 0:
+        ravel_histories(ctx)
     quick = ctx.tier == 'quick'
     idx = 0
     trees = shape_trees()
@@ -270,6 +308,8 @@ def run_shard(ctx):
 
 def replay(case, ctx):
     c = case['case']
+    if 'history' in c:
+        return ravel_histories(ctx)
     B = Backend(c['backend'])
     check_case(ctx, B, c['tree'], [(tuple(ls[0]), *ls[1:]) for ls in c['leaves']], c['nil'], c['ns'])
 
